@@ -17,6 +17,16 @@ class HalfAndInts(AbstractDtype):
     dtypes = ("float16", "bfloat16", "int16", "int32", "uint16")
 
 
+class Float(AbstractDtype):
+    """a project's own category that happens to be NAMED like an exported one (fewer dtypes than jaxtyping.Float)"""
+    dtypes = ["float32", "float64"]
+
+
+class Shaped(AbstractDtype):
+    """named like jaxtyping.Shaped, but not the any-dtype category"""
+    dtypes = ["int8", "uint8"]
+
+
 class Duck:
     """Duck-typed array: only `shape` and `dtype`."""
 
@@ -43,5 +53,5 @@ class Other:
         return f"Other({self.shape},{self.dtype})"
 
 
-USER_CATS = {"F32orI8": F32orI8, "OnlyBool": OnlyBool, "HalfAndInts": HalfAndInts}
+USER_CATS = {"F32orI8": F32orI8, "OnlyBool": OnlyBool, "HalfAndInts": HalfAndInts, "user.Float": Float, "user.Shaped": Shaped}
 CLASSES = {"Duck": Duck, "Duck2": Duck2, "Other": Other}
